@@ -35,6 +35,18 @@ type c20Case struct {
 // the shared schema: fuzzModule plus groupings / uses / augment / typedefs so that loading exercises the resolver
 func c20Module() *dm.Module {
 	m := fuzzModule()
+	leaf := func(n, b string) *dm.Node { return &dm.Node{Kind: "leaf", Name: n, Type: &dm.Type{Base: b}} }
+	// definitions that a by-name lookup reaches only through the cases of choices: a choice nested in a case, a case added
+	// by an augment, in a container and in a list
+	nested := func(p string) *dm.Node {
+		return &dm.Node{Kind: "choice", Name: p + "outer", Children: []*dm.Node{
+			{Kind: "case", Name: p + "o1", Children: []*dm.Node{{Kind: "choice", Name: p + "inner", Children: []*dm.Node{
+				{Kind: "case", Name: p + "i1", Children: []*dm.Node{leaf(p+"deepleaf", "int32")}},
+				{Kind: "case", Name: p + "i2", Children: []*dm.Node{{Kind: "container", Name: p + "deepc", Children: []*dm.Node{leaf("y", "string")}}}}}}}},
+			{Kind: "case", Name: p + "o2", Aug: true, Children: []*dm.Node{leaf(p+"augd", "string")}}}}
+	}
+	m.Top = append(m.Top, &dm.Node{Kind: "container", Name: "deep", Children: []*dm.Node{leaf("plain", "string"), nested("")}},
+		&dm.Node{Kind: "list", Name: "dl", Keys: []string{"k"}, Children: []*dm.Node{leaf("k", "string"), nested("l-")}})
 	m.Extra = "typedef td { type int32 { range \"0..100\"; } default 7; units u; } grouping g { leaf gl { type td; } container gc { leaf x { type string; } } } " +
 		"container used { uses g { refine gl { description \"r\"; } } } augment \"/used\" { leaf aug { type string; } } feature f; " +
 		"augment \"/c/ch\" { case augcase { leaf augleaf { type string; } } } "
@@ -44,11 +56,20 @@ func c20Module() *dm.Module {
 func c20Yang() string { return c20Module().Yang() }
 
 var c20Queries = []string{"depth=1", "content=config", "fields=s;i", "fc.xfields=ll", "with-defaults=trim", "fc.range=l!0-1", "depth=2&content=all"}
-var c20Paths = []string{"c", "l=a", "l=a/in=1,x", "l=b", "c/s", "l", "c?depth=1", "l?fc.range=l!0-0", "c?fields=s", "nothere", "l=zz"}
+var c20Paths = []string{"c", "l=a", "l=a/in=1,x", "l=b", "c/s", "l", "c?depth=1", "l?fc.range=l!0-0", "c?fields=s", "nothere", "l=zz",
+	"deep/deepleaf", "deep/deepc", "deep/deepc/y", "deep/augd", "deep/plain", "c/augleaf", "c/ca", "c/cb/x", "dl=a/l-deepleaf", "dl=b/l-deepc/y", "dl=a/l-augd",
+	"dl?where=l-deepleaf%3D1", "dl?where=l-deepleaf%3E0", "dl?where=l-augd%3D'q'", "deep?fields=deepleaf", "dl?fields=l-deepleaf"}
+
+func c20Data() dm.Tree {
+	d := fuzzData()
+	d["deep"] = dm.Tree{"plain": "p", "deepleaf": "4"}
+	d["dl"] = []interface{}{dm.Tree{"k": "a", "l-deepleaf": "1"}, dm.Tree{"k": "b", "l-deepc": dm.Tree{"y": "yy"}}, dm.Tree{"k": "c", "l-deepleaf": "2"}}
+	return d
+}
 
 func c20RunOps(mm *meta.Module, ops []c20Op) []string {
 	root := c20Module().Root()
-	store, _ := dm.NewStore("rs", root, fuzzData())
+	store, _ := dm.NewStore("rs", root, c20Data())
 	var out []string
 	add := func(s string, err error) {
 		if err != nil {
@@ -95,7 +116,7 @@ func c20RunOps(mm *meta.Module, ops []c20Op) []string {
 			add(nodeutil.WriteJSON(b.Root()))
 		case "json-node":
 			// the same data held by a slice-backed nodeutil.Node (its own case detection and key lookup)
-			ns, err := dm.NewStore("node-slice", root, fuzzData())
+			ns, err := dm.NewStore("node-slice", root, c20Data())
 			if err != nil {
 				add("", err)
 				continue
@@ -256,7 +277,7 @@ func c20Gen(t *rapid.T) c20Case {
 			case "setvalue":
 				op.Arg = fmt.Sprint(rapid.IntRange(-5, 5).Draw(t, "val"))
 			case "delete":
-				op.Arg = rapid.SampledFrom([]string{"c", "l=a", "l=b", "l", "used"}).Draw(t, "delpath")
+				op.Arg = rapid.SampledFrom([]string{"c", "l=a", "l=b", "l", "used", "deep/deepc", "dl=a", "deep"}).Draw(t, "delpath")
 			}
 			ops = append(ops, op)
 		}
@@ -268,7 +289,7 @@ func c20Gen(t *rapid.T) c20Case {
 var c20Shared = hx.Register(&hx.Check[c20Case]{
 	Name:    "c20-shared-schema",
 	Journal: true,
-	Rule:    "2-8 goroutines, each with its own reference store, run 1-5 operations {load the module text (groupings, uses, refine, augments also into a choice, typedefs), export, upsert from JSON, Find with and without query parameters, JSON write (also of a slice-backed nodeutil.Node), XML write, Constrain + read, SetValue, Delete} against one shared compiled module that is freshly loaded for every repetition (so that lazily initialised state is first touched concurrently), under GOMAXPROCS 1/2/4/16, each workload twice; built with -race (halt on first report); every goroutine's results must equal what the same list yields alone and the module's accessor dump must be unchanged; non-trivial = at least one loader or constrained read among >= 2 goroutines",
+	Rule:    "2-8 goroutines, each with its own reference store, run 1-5 operations {load the module text (groupings, uses, refine, augments also into a choice, typedefs), export, upsert from JSON, Find with and without query parameters (also to definitions that a lookup by name reaches only through nested choices and augmented cases, and where= expressions naming them), JSON write (also of a slice-backed nodeutil.Node), XML write, Constrain + read, SetValue, Delete} against one shared compiled module that is freshly loaded for every repetition (so that lazily initialised state is first touched concurrently), under GOMAXPROCS 1/2/4/16, each workload twice; built with -race (halt on first report); every goroutine's results must equal what the same list yields alone and the module's accessor dump must be unchanged; non-trivial = at least one loader or constrained read among >= 2 goroutines",
 	Gen:     c20Gen,
 	Run:     c20Run,
 })
